@@ -534,10 +534,11 @@ func runC14(r *core.Run) (bool, string) {
 	r.SetRule("a history is 2–4 client goroutines × 3–8 calls on one fresh filesystem (shared directory d, sometimes e; sealed files L,S1,S2; one appender file per client; churn names n1,n2,m1 with Create/Link/AtomicCreate/Delete/List conflicts), preceded by a sequential setup and followed by a sequential read-back of every listed file; " +
 		"every call is stamped at the client boundary from one atomic counter (call stamp taken before the invocation, return stamp after the reply). evaluations = recorded calls in histories that were checked; " +
 		"distinct = set of (implementation, class of call A, class of call B, same target name?) over pairs of calls of different clients whose intervals overlapped, class = operation + outcome (create/link ok or not, readat empty or data, list size); " +
+		"in 40 % of the programs of every pool the role names are replaced by SHAPED names (pattern shaped-names; same structure, names from the C12 catalogue: the churn names become a stem and a reserved-looking shape of it — n and n.tmp, n.<digits>-<digits>.tmp, .n.tmp, #n#, n~ … — in one directory, the second directory's churn name repeats one of them, a sealed file is named like its directory, directories are shaped / differ only by case / are called <d>.tmp; all below 120 bytes); " +
 		"pool A keeps at most one open descriptor per inode, pool B adds 'several clients open one sealed file' and 'open while another client appends', pool C is pool B's mix with boundary arguments (empty and nil data for Append / AtomicCreate, zero-length ReadAt, offsets at / beyond / far beyond the end, reads crossing the end). " +
 		"Boundary-argument matrix (matrix_* keys): every operation class = operation + boundary argument (empty / nil slices for Append and AtomicCreate, zero-length ReadAt, offsets at / beyond / far beyond EOF, reads crossing EOF, empty files and directories, names that exist / are free / are used by both goroutines, Mkdir, and on MemFs the refused calls: closed descriptor, wrong mode, missing name or directory) is looped by one goroutine while a second goroutine loops every class (itself included) on one fresh filesystem, with no harness synchronisation between start barrier and join; plain and -race builds; " +
 		"a pair counts as 'ran concurrently' when the monotonic-clock [before,after] intervals of at least one call of each goroutine intersect; each class checks only what holds in every linearization, refused classes decide only races and process death")
-	r.Assume("every issued call is valid in every order consistent with real time (names that are deleted are only touched by Create, Link-target, List and their single owner; AtomicCreate of a name only by its owner, so DirFs's shared <name>.tmp staging — property C13 — is not exercised concurrently)")
+	r.Assume("every issued call is valid in every order consistent with real time (names that are deleted are only touched by Create, Link-target, List and their single owner; AtomicCreate of a name only by its owner; concurrent AtomicCreates of different names, also of a name and of its reserved-looking shapes, do happen); names are legal single path components, nothing else is reserved")
 	r.Assume("directories hold at most 8 entries, so DirFs.List needs one getdents call and the documented multi-chunk non-atomicity is not exercised")
 	r.Assume("the logical clock is sound for real-time order: if ret(A) < call(B) on the counter then A returned before B was invoked")
 	r.Assume("schedules are whatever the Go runtime produces under GOMAXPROCS 1,2,4,16 with Gosched salting; the race detector reports only races on accesses that actually happened")
